@@ -1,3 +1,4 @@
+import Firebolt.TransExpected
 import Firebolt.Properties.TransBase
 import Firebolt.Properties.C01
 import Firebolt.Properties.ExecFlow
@@ -124,6 +125,16 @@ theorem translated_rootDeliverBody (σ : Env) :
     (obs Trans.exRootDeliverBody σ).ret = none ∧ (obs Trans.exRootDeliverBody σ).stuck = false := by
   by_cases h1 : σ "room rootNode.Ch" = 0 <;> by_cases h2 : σ "rootNode.Config.DiscardOnFullBuffer" = 0 <;>
   minigo_simp [Trans.exRootDeliverBody, h1, h2]
+
+
+/-- the two delivery bodies in the exact form the driver's counterexample search uses (`fbdriver transcheck`) -/
+theorem translated_deliverBody_exact (σ : Env) : obs Trans.deliverBody σ = TransExpected.deliverBody σ := by
+  by_cases h1 : σ "room childNode.Ch" = 0 <;> by_cases h2 : σ "childNode.Config.DiscardOnFullBuffer" = 0 <;>
+  minigo_simp [Trans.deliverBody, TransExpected.deliverBody, TransExpected.gauge, h1, h2]
+
+theorem translated_rootDeliverBody_exact (σ : Env) : obs Trans.exRootDeliverBody σ = TransExpected.exRootDeliverBody σ := by
+  by_cases h1 : σ "room rootNode.Ch" = 0 <;> by_cases h2 : σ "rootNode.Config.DiscardOnFullBuffer" = 0 <;>
+  minigo_simp [Trans.exRootDeliverBody, TransExpected.exRootDeliverBody, h1, h2]
 
 end Translated
 
